@@ -325,3 +325,12 @@ fn test_chebyshev_modn() {
     let gk = chebyshev_modn(&zn, &g, p - 1);
     assert!(gk != zn.from_int(Uint::from_digit(2)));
 }
+
+// ---------------------------------------------------------------------------
+// Verification hooks (add-only, compiled only with `--cfg yamaquasi_verif`).
+
+#[cfg(yamaquasi_verif)]
+#[doc(hidden)]
+pub fn verif_chebyshev_modn(zn: &ZmodN, g: &MInt, exp: u64) -> MInt {
+    chebyshev_modn(zn, g, exp)
+}
